@@ -31,11 +31,41 @@ Proof. intros []; reflexivity. Qed.
 Lemma update_shape : forall ev rs ids, Forall (is_put ev) (fst (update ev rs ids)).
 Proof. intros. unfold update. apply send_shape. Qed.
 
+(* ------------------------------------------------------------ the listener registry *)
+Lemma add_l_NoDup : forall l ls, NoDup ls -> NoDup (add_l l ls).
+Proof.
+  intros l ls ND. unfold add_l. destruct (memN l ls) eqn:E; [assumption|].
+  apply NoDup_snoc; [assumption|]. apply memN_false. exact E.
+Qed.
+
+Lemma del_l_NoDup : forall l ls, NoDup ls -> NoDup (del_l l ls).
+Proof. intros l ls ND. unfold del_l. apply NoDup_filter. exact ND. Qed.
+
+Lemma apply_acts_NoDup : forall a reg, NoDup reg -> NoDup (apply_acts a reg).
+Proof.
+  unfold apply_acts. induction a as [|[b l] t IH]; intros reg ND; cbn [fold_left fst snd]; [assumption|].
+  apply IH. destruct b; [apply add_l_NoDup|apply del_l_NoDup]; assumption.
+Qed.
+
+Lemma registry_after_NoDup : forall acts snap e reg, NoDup reg -> NoDup (registry_after acts snap e reg).
+Proof.
+  intros acts. unfold registry_after. induction snap as [|l t IH]; intros e reg ND; cbn [fold_left]; [assumption|].
+  apply IH. apply apply_acts_NoDup. exact ND.
+Qed.
+
+Lemma registry_after_quiet : forall acts snap e reg, quiet acts -> registry_after acts snap e reg = reg.
+Proof.
+  intros acts snap e reg Q. unfold registry_after. revert reg.
+  induction snap as [|l t IH]; intros reg; cbn [fold_left]; [reflexivity|].
+  rewrite Q. cbn. apply IH.
+Qed.
+
 Section Step.
   Variable raises : lid -> fevent -> bool.
+  Variable acts : lid -> fevent -> list (bool * lid).
 
   (* ------------------------------------------------------------ invariant *)
-  Lemma inv_step : forall s e, Inv s -> Inv (fst (step raises s e)).
+  Lemma inv_step : forall s e, Inv s -> Inv (fst (step raises acts s e)).
   Proof.
     intros s e [H1 H2]. unfold Inv. destruct e as [cs rs|cs rs|l|l|rs| |b]; cbn [step].
     - destruct (negb (sup s)); [cbn; split; [apply union_NoDup|]; assumption|].
@@ -43,43 +73,44 @@ Section Step.
       destruct (update true rs cs) as [o [stt|lost]]; cbn; (split; [apply union_NoDup|]; assumption).
     - destruct (negb (conn s)); [cbn; split; [apply diff_NoDup|]; assumption|].
       destruct (update false rs cs) as [o [stt|lost]]; cbn; split; try assumption. apply diff_NoDup; assumption.
-    - cbn. split; [assumption|]. destruct (memN l (lst s)) eqn:E; [assumption|].
-      apply NoDup_snoc; [assumption|]. apply memN_false. exact E.
-    - cbn. split; [assumption|]. apply NoDup_filter. assumption.
+    - cbn. split; [assumption|]. apply add_l_NoDup. assumption.
+    - cbn. split; [assumption|]. apply del_l_NoDup. assumption.
     - destruct (conn s); [cbn; split; assumption|].
+      assert (NR : NoDup (reg_after acts s [])) by (apply registry_after_NoDup; assumption).
       destruct (subs s) as [|c t] eqn:ES; [cbn; split; [constructor|assumption]|].
       destruct (negb (sup s)); [cbn; split; assumption|].
       destruct (update true rs (c :: t)) as [o [stt|lost]]; cbn; split; assumption.
     - destruct (conn s); cbn; split; assumption.
-    - destruct (conn s); [|cbn; split; assumption]. destruct b; cbn; split; assumption.
+    - destruct (conn s); [|cbn; split; assumption]. destruct b; cbn; split; try assumption.
+      apply registry_after_NoDup; assumption.
   Qed.
 
-  Lemma inv_run : forall h s, Inv s -> Inv (fst (run_from raises s h)).
+  Lemma inv_run : forall h s, Inv s -> Inv (fst (run_from raises acts s h)).
   Proof.
     induction h as [|e t IH]; intros s HI; cbn [run_from]; [exact HI|].
-    pose proof (inv_step s e HI) as P. destruct (step raises s e) as [s1 o1]. cbn [fst] in P.
-    specialize (IH s1 P). destruct (run_from raises s1 t) as [s2 o2]. exact IH.
+    pose proof (inv_step s e HI) as P. destruct (step raises acts s e) as [s1 o1]. cbn [fst] in P.
+    specialize (IH s1 P). destruct (run_from raises acts s1 t) as [s2 o2]. exact IH.
   Qed.
 
-  Lemma inv_reachable : forall s, reachable raises s -> Inv s.
+  Lemma inv_reachable : forall s, reachable raises acts s -> Inv s.
   Proof. intros s H. induction H; [apply inv_init|apply inv_step; assumption]. Qed.
 
-  Lemma reachable_run_from : forall h s, reachable raises s -> reachable raises (fst (run_from raises s h)).
+  Lemma reachable_run_from : forall h s, reachable raises acts s -> reachable raises acts (fst (run_from raises acts s h)).
   Proof.
     induction h as [|e t IH]; intros s HR; cbn [run_from]; [exact HR|].
-    pose proof (reach_step raises s e HR) as P. destruct (step raises s e) as [s1 o1]. cbn [fst] in P.
-    specialize (IH s1 P). destruct (run_from raises s1 t) as [s2 o2]. exact IH.
+    pose proof (reach_step raises acts s e HR) as P. destruct (step raises acts s e) as [s1 o1]. cbn [fst] in P.
+    specialize (IH s1 P). destruct (run_from raises acts s1 t) as [s2 o2]. exact IH.
   Qed.
 
   (* ------------------------------------------------------------ re-subscription *)
   Lemma resubscribe_all_l : forall s rs s' o,
       Inv s -> conn s = false -> sup s = true ->
-      step raises s (ConnUp rs) = (s', o) -> sup s' = true ->
+      step raises acts s (ConnUp rs) = (s', o) -> sup s' = true ->
       (forall c, In c (put_ids true o) <-> In c (subs s))
       /\ put_ids false o = []
       /\ (forall l, In l (lst s) -> calls_of l o = [[]])
       /\ (forall l, ~ In l (lst s) -> calls_of l o = [])
-      /\ conn s' = true /\ subs s' = subs s /\ lst s' = lst s.
+      /\ conn s' = true /\ subs s' = subs s /\ lst s' = reg_after acts s [].
   Proof.
     intros s rs s' o [ND1 ND2] HC HS Hstep Hs'. cbn [step] in Hstep. rewrite HC in Hstep.
     destruct (subs s) as [|c t] eqn:ES.
@@ -108,7 +139,7 @@ Section Step.
   (* in fall-back mode a new session still tells every listener, and sends no request *)
   Lemma connup_fallback_l : forall s rs s' o,
       Inv s -> conn s = false -> sup s = false ->
-      step raises s (ConnUp rs) = (s', o) ->
+      step raises acts s (ConnUp rs) = (s', o) ->
       put_ids true o = [] /\ put_ids false o = []
       /\ (forall l, In l (lst s) -> calls_of l o = [[]])
       /\ conn s' = true /\ subs s' = subs s /\ sup s' = false.
@@ -126,7 +157,7 @@ Section Step.
   (* whether the re-subscribe of a new session is cut off is decided by the replies alone *)
   Lemma connup_cutoff_l : forall s rs,
       conn s = false -> sup s = true ->
-      (sup (fst (step raises s (ConnUp rs))) = false
+      (sup (fst (step raises acts s (ConnUp rs))) = false
        <-> exists a, In a (map fst (subs s)) /\ (reply_for a rs = RDisc \/ reply_for a rs = RHttp4xx)).
   Proof.
     intros s rs HC HS. cbn [step]. rewrite HC.
@@ -143,7 +174,7 @@ Section Step.
 
   (* ------------------------------------------------------------ supports_subscribe *)
   Lemma sup_step : forall s e,
-      sup (fst (step raises s e)) = sup s && negb (existsb cutoff (snd (step raises s e))).
+      sup (fst (step raises acts s e)) = sup s && negb (existsb cutoff (snd (step raises acts s e))).
   Proof.
     intros s e. destruct e as [cs rs|cs rs|l|l|rs| |b]; cbn [step].
     - destruct (sup s) eqn:HS; cbn [negb]; [|reflexivity].
@@ -174,18 +205,18 @@ Section Step.
   Qed.
 
   Lemma sup_run_from : forall h s,
-      sup (fst (run_from raises s h)) = sup s && negb (existsb cutoff (snd (run_from raises s h))).
+      sup (fst (run_from raises acts s h)) = sup s && negb (existsb cutoff (snd (run_from raises acts s h))).
   Proof.
     induction h as [|e t IH]; intros s; cbn [run_from].
     - cbn. rewrite andb_true_r. reflexivity.
-    - pose proof (sup_step s e) as P. destruct (step raises s e) as [s1 o1]. cbn [fst snd] in P.
-      specialize (IH s1). destruct (run_from raises s1 t) as [s2 o2]. cbn [fst snd] in *.
+    - pose proof (sup_step s e) as P. destruct (step raises acts s e) as [s1 o1]. cbn [fst snd] in P.
+      specialize (IH s1). destruct (run_from raises acts s1 t) as [s2 o2]. cbn [fst snd] in *.
       rewrite IH, P, existsb_app, negb_orb, andb_assoc. reflexivity.
   Qed.
 
   Lemma fallback_iff : forall h,
-      sup (fst (run raises h)) = false <->
-      exists ids r, In (OPut true ids r) (snd (run raises h)) /\ (r = PutDisc \/ r = Put4xx).
+      sup (fst (run raises acts h)) = false <->
+      exists ids r, In (OPut true ids r) (snd (run raises acts h)) /\ (r = PutDisc \/ r = Put4xx).
   Proof.
     intros h. unfold run. rewrite sup_run_from. cbn [sup init andb]. rewrite negb_false_iff, existsb_exists.
     split.
@@ -196,7 +227,7 @@ Section Step.
 
   (* ------------------------------------------------------------ the subscription set *)
   Lemma subs_subscribe : forall s cs rs c,
-      In c (subs (fst (step raises s (Subscribe cs rs)))) <-> In c (subs s) \/ In c cs.
+      In c (subs (fst (step raises acts s (Subscribe cs rs)))) <-> In c (subs s) \/ In c cs.
   Proof.
     intros s cs rs c. cbn [step].
     destruct (negb (sup s)); [cbn; apply union_In|].
@@ -205,8 +236,8 @@ Section Step.
   Qed.
 
   Lemma subs_unsubscribe : forall s cs rs c,
-      (In c (subs (fst (step raises s (Unsubscribe cs rs)))) -> In c (subs s))
-      /\ (In c (subs s) -> ~ In c cs -> In c (subs (fst (step raises s (Unsubscribe cs rs))))).
+      (In c (subs (fst (step raises acts s (Unsubscribe cs rs)))) -> In c (subs s))
+      /\ (In c (subs s) -> ~ In c cs -> In c (subs (fst (step raises acts s (Unsubscribe cs rs))))).
   Proof.
     intros s cs rs c. cbn [step].
     destruct (negb (conn s)); [cbn; rewrite diff_In; tauto|].
@@ -216,7 +247,7 @@ Section Step.
 
   Lemma subs_other : forall s e,
       match e with Subscribe _ _ | Unsubscribe _ _ => True
-              | _ => subs (fst (step raises s e)) = subs s end.
+              | _ => subs (fst (step raises acts s e)) = subs s end.
   Proof.
     intros s e. destruct e as [cs rs|cs rs|l|l|rs| |b]; cbn [step]; try exact I; try reflexivity.
     - destruct (conn s); [reflexivity|]. destruct (subs s) as [|c t] eqn:ES; [cbn; auto|].
@@ -228,7 +259,7 @@ Section Step.
 
   (* ------------------------------------------------------------ events and listener logs *)
   Lemma step_calls : forall s e l, NoDup (lst s) ->
-      calls_of l (snd (step raises s e)) = if memN l (lst s) then notif s e else [].
+      calls_of l (snd (step raises acts s e)) = if memN l (lst s) then notif s e else [].
   Proof.
     intros s e l ND.
     assert (NIL : forall b : bool, (if b then @nil fevent else []) = []) by (intros []; reflexivity).
@@ -262,40 +293,53 @@ Section Step.
   Qed.
 
   Lemma log_char : forall h s l, Inv s ->
-      calls_of l (snd (run_from raises s h)) = expected_log raises l s h.
+      calls_of l (snd (run_from raises acts s h)) = expected_log raises acts l s h.
   Proof.
     induction h as [|e t IH]; intros s l HI; cbn [run_from expected_log]; [reflexivity|].
     pose proof (step_calls s e l (proj2 HI)) as P. pose proof (inv_step s e HI) as Q.
-    destruct (step raises s e) as [s1 o1]. cbn [fst snd] in *.
-    specialize (IH s1 l Q). destruct (run_from raises s1 t) as [s2 o2]. cbn [snd] in *.
+    destruct (step raises acts s e) as [s1 o1]. cbn [fst snd] in *.
+    specialize (IH s1 l Q). destruct (run_from raises acts s1 t) as [s2 o2]. cbn [snd] in *.
     rewrite calls_of_app, P, IH. reflexivity.
   Qed.
 
-  Lemma event_keeps_state : forall s b, fst (step raises s (EventMsg b)) = s.
-  Proof. intros s b. cbn [step]. destruct (conn s); [|reflexivity]. destruct b; reflexivity. Qed.
+  Lemma event_keeps_session : forall s b,
+      subs (fst (step raises acts s (EventMsg b))) = subs s
+      /\ sup (fst (step raises acts s (EventMsg b))) = sup s
+      /\ conn (fst (step raises acts s (EventMsg b))) = conn s.
+  Proof.
+    intros s b. cbn [step]. destruct (conn s) eqn:HC; [|cbn; rewrite HC; repeat split].
+    destruct b; cbn; rewrite ?HC; repeat split.
+  Qed.
 
-  Lemma event_stream_l : forall bs s l, conn s = true -> NoDup (lst s) ->
-      fst (run_from raises s (map EventMsg bs)) = s
-      /\ calls_of l (snd (run_from raises s (map EventMsg bs)))
+  Lemma event_keeps_state : forall s b, quiet acts -> fst (step raises acts s (EventMsg b)) = s.
+  Proof.
+    intros s b Q. cbn [step]. destruct (conn s) eqn:HC; [|reflexivity].
+    destruct b; try reflexivity. cbn [fst]. unfold reg_after. rewrite registry_after_quiet by exact Q.
+    destruct s; cbn in *. subst. reflexivity.
+  Qed.
+
+  Lemma event_stream_l : forall bs s l, quiet acts -> conn s = true -> NoDup (lst s) ->
+      fst (run_from raises acts s (map EventMsg bs)) = s
+      /\ calls_of l (snd (run_from raises acts s (map EventMsg bs)))
          = if memN l (lst s) then flat_map deliver bs else [].
   Proof.
-    induction bs as [|b t IH]; intros s l HC ND; cbn [map run_from flat_map].
+    induction bs as [|b t IH]; intros s l Q HC ND; cbn [map run_from flat_map].
     - split; [reflexivity|]. destruct (memN l (lst s)); reflexivity.
-    - pose proof (step_calls s (EventMsg b) l ND) as P. pose proof (event_keeps_state s b) as Q.
-      destruct (step raises s (EventMsg b)) as [s1 o1]. cbn [fst snd] in *. subst s1.
-      destruct (IH s l HC ND) as [R1 R2]. destruct (run_from raises s (map EventMsg t)) as [s2 o2]. cbn [fst snd] in *.
+    - pose proof (step_calls s (EventMsg b) l ND) as P. pose proof (event_keeps_state s b Q) as R.
+      destruct (step raises acts s (EventMsg b)) as [s1 o1]. cbn [fst snd] in *. subst s1.
+      destruct (IH s l Q HC ND) as [R1 R2]. destruct (run_from raises acts s (map EventMsg t)) as [s2 o2]. cbn [fst snd] in *.
       split; [exact R1|]. rewrite calls_of_app, P, R2. cbn [notif]. rewrite HC.
       destruct (memN l (lst s)); reflexivity.
   Qed.
 
   Lemma ignored_bodies : forall s,
-      step raises s (EventMsg BEmpty) = (s, []) /\ step raises s (EventMsg BNonJson) = (s, []).
+      step raises acts s (EventMsg BEmpty) = (s, []) /\ step raises acts s (EventMsg BNonJson) = (s, []).
   Proof. intros s. cbn [step]. destruct (conn s); split; reflexivity. Qed.
 
   (* ------------------------------------------------------------ what can end a session *)
   Lemma conn_step : forall s e,
-      conn s = true -> conn (fst (step raises s e)) = false ->
-      e = ConnDown \/ exists ev ids, In (OPut ev ids PutDisc) (snd (step raises s e)).
+      conn s = true -> conn (fst (step raises acts s e)) = false ->
+      e = ConnDown \/ exists ev ids, In (OPut ev ids PutDisc) (snd (step raises acts s e)).
   Proof.
     intros s e HC. destruct e as [cs rs|cs rs|l|l|rs| |b]; cbn [step]; rewrite ?HC; cbn [negb].
     - destruct (negb (sup s)); [cbn; congruence|].
@@ -316,10 +360,11 @@ Section Step.
 End Step.
 
 (* ------------------------------------------------------------ listener isolation *)
-Lemma step_indep : forall r1 r2 s e,
-    fst (step r1 s e) = fst (step r2 s e) /\ strip (snd (step r1 s e)) = strip (snd (step r2 s e)).
+Lemma step_indep : forall r1 r2 acts s e,
+    fst (step r1 acts s e) = fst (step r2 acts s e)
+    /\ strip (snd (step r1 acts s e)) = strip (snd (step r2 acts s e)).
 Proof.
-  intros r1 r2 s e. destruct e as [cs rs|cs rs|l|l|rs| |b]; cbn [step]; try (split; reflexivity).
+  intros r1 r2 acts s e. destruct e as [cs rs|cs rs|l|l|rs| |b]; cbn [step]; try (split; reflexivity).
   - destruct (conn s); [split; reflexivity|].
     destruct (subs s) as [|c t].
     + cbn [fst snd]. rewrite !strip_session, !strip_notify. split; reflexivity.
@@ -339,15 +384,15 @@ Proof.
     rewrite !strip_notify. split; reflexivity.
 Qed.
 
-Lemma run_indep : forall r1 r2 h s,
-    fst (run_from r1 s h) = fst (run_from r2 s h)
-    /\ strip (snd (run_from r1 s h)) = strip (snd (run_from r2 s h)).
+Lemma run_indep : forall r1 r2 acts h s,
+    fst (run_from r1 acts s h) = fst (run_from r2 acts s h)
+    /\ strip (snd (run_from r1 acts s h)) = strip (snd (run_from r2 acts s h)).
 Proof.
-  intros r1 r2. induction h as [|e t IH]; intros s; cbn [run_from]; [split; reflexivity|].
-  destruct (step_indep r1 r2 s e) as [P1 P2].
-  destruct (step r1 s e) as [s1 o1]. destruct (step r2 s e) as [s1' o1']. cbn [fst snd] in *. subst s1'.
+  intros r1 r2 acts. induction h as [|e t IH]; intros s; cbn [run_from]; [split; reflexivity|].
+  destruct (step_indep r1 r2 acts s e) as [P1 P2].
+  destruct (step r1 acts s e) as [s1 o1]. destruct (step r2 acts s e) as [s1' o1']. cbn [fst snd] in *. subst s1'.
   destruct (IH s1) as [Q1 Q2].
-  destruct (run_from r1 s1 t) as [s2 o2]. destruct (run_from r2 s1 t) as [s2' o2']. cbn [fst snd] in *.
+  destruct (run_from r1 acts s1 t) as [s2 o2]. destruct (run_from r2 acts s1 t) as [s2' o2']. cbn [fst snd] in *.
   split; [exact Q1|]. rewrite !strip_app, P2, Q2. reflexivity.
 Qed.
 
